@@ -13,6 +13,7 @@ package chainntnfs
 //@
 //@ func (n *TxNotifier) ConnectTip
 //@   props C14
+//@   bounds-safe
 //@   loop * havoc
 //@   site store TxNotifier.currentHeight: assert blockHeight == wrap(old(n.currentHeight) + 1, 32) && value == blockHeight
 //@   site store TxNotifier.reorgDepth: assert value == 0
@@ -27,6 +28,7 @@ package chainntnfs
 //@
 //@ func (n *TxNotifier) DisconnectTip
 //@   props C14
+//@   bounds-safe
 //@   loop * havoc
 //@   site store TxNotifier.currentHeight: assert blockHeight == old(n.currentHeight) && value == wrap(blockHeight - 1, 32)
 //@   site store TxNotifier.reorgDepth: assert value == wrap(old(n.reorgDepth) + 1, 32)
@@ -44,12 +46,14 @@ package chainntnfs
 //@ // is read back from the notifier's maps (A-inv): 1 <= NumConfirmations <= reorgSafetyLimit
 //@ func (n *TxNotifier) newConfNtfn
 //@   props C14
+//@   bounds-safe
 //@   ensures result1 == nil ==> result0 != nil && result0.NumConfirmations == numConfs && 1 <= numConfs && numConfs <= n.reorgSafetyLimit &&
 //@           result0.HeightHint == heightHint && heightHint != 0 && !result0.dispatched && result0.numConfsLeft == numConfs
 //@   ensures (numConfs == 0 || numConfs > n.reorgSafetyLimit || heightHint == 0 || len(pkScript) == 0) ==> result1 != nil
 //@
 //@ func (n *TxNotifier) dispatchConfDetails
 //@   props C14
+//@   bounds-safe
 //@   requires details != nil ==> 1 <= ntfn.NumConfirmations && details.BlockHeight + ntfn.NumConfirmations <= 4294967295 &&
 //@            details.BlockHeight + n.reorgSafetyLimit <= 4294967295
 //@   site store ConfNtfn.dispatched: assert details != nil && value && !old(ntfn.dispatched) &&
@@ -74,6 +78,7 @@ package chainntnfs
 //@
 //@ func (n *TxNotifier) handleConfDetailsAtTip
 //@   props C14
+//@   bounds-safe
 //@   loop * havoc
 //@   site store confNtfnSet.details: assert details == nil && value == entry(details)
 //@   site mapupdate ntfnsByConfirmHeight: assert arg(key) == wrap(details.BlockHeight + ntfn.NumConfirmations - 1, 32)
@@ -85,16 +90,19 @@ package chainntnfs
 //@
 //@ func (n *TxNotifier) unconfirmedRequests
 //@   props C14
+//@   bounds-safe
 //@   loop * havoc
 //@   site call append: assert confNtfnSet.rescanStatus == rescanComplete && confNtfnSet.details == nil
 //@
 //@ func (n *TxNotifier) unspentRequests
 //@   props C14
+//@   bounds-safe
 //@   loop * havoc
 //@   site call append: assert spendNtfnSet.rescanStatus == rescanComplete && spendNtfnSet.details == nil
 //@
 //@ func (n *TxNotifier) updateHints
 //@   props C14
+//@   bounds-safe
 //@   loop * havoc
 //@   site call CommitConfirmHint: assert arg(1) == n.currentHeight
 //@   site call CommitSpendHint: assert arg(1) == n.currentHeight
@@ -106,6 +114,7 @@ package chainntnfs
 //@ // ---- hand-outs: what may be put on a client's channels, and when
 //@ func (n *TxNotifier) dispatchConfReorg
 //@   props C14
+//@   bounds-safe
 //@   site send NegativeConf: assert value == swrap(n.reorgDepth, 32)
 //@   site store ConfNtfn.dispatched: assert old(ntfn.dispatched) && !value
 //@   site call delete: assert !ntfn.dispatched && arg(1) == ntfn && arg(0) == ntfnSet
@@ -113,12 +122,14 @@ package chainntnfs
 //@
 //@ func (n *TxNotifier) dispatchSpendReorg
 //@   props C14
+//@   bounds-safe
 //@   site send Reorg: assert ntfn.dispatched
 //@   site store SpendNtfn.dispatched: assert old(ntfn.dispatched) && !value
 //@   ensures !old(ntfn.dispatched) ==> result == nil && !ntfn.dispatched
 //@
 //@ func (n *TxNotifier) dispatchSpendDetails
 //@   props C14
+//@   bounds-safe
 //@   site send Spend: assert details != nil && !ntfn.dispatched && value == details
 //@   site store SpendNtfn.dispatched: assert details != nil && !old(ntfn.dispatched) && value
 //@   site mapupdate spendsByHeight: assert arg(key) == wrap(details.SpendingHeight, 32)
@@ -133,11 +144,13 @@ package chainntnfs
 //@
 //@ func (n *TxNotifier) notifyNumConfsLeft
 //@   props C14
+//@   bounds-safe
 //@   site send Updates: assert value == info && info.NumConfsLeft < old(ntfn.numConfsLeft) && ntfn.numConfsLeft == info.NumConfsLeft
 //@   ensures info.NumConfsLeft >= old(ntfn.numConfsLeft) ==> result == nil && ntfn.numConfsLeft == old(ntfn.numConfsLeft)
 //@
 //@ func (n *TxNotifier) handleSpendDetailsAtTip
 //@   props C14
+//@   bounds-safe
 //@   loop * havoc
 //@   site store spendNtfnSet.details: assert value == entry(details)
 //@   site store spendNtfnSet.rescanStatus: assert value == rescanComplete
@@ -147,6 +160,7 @@ package chainntnfs
 //@
 //@ func (n *TxNotifier) updateSpendDetails
 //@   props C14
+//@   bounds-safe
 //@   loop * havoc
 //@   site call CommitSpendHint nth 0: assert details == nil && arg(1) == n.currentHeight && spendSet.details == nil
 //@   site call CommitSpendHint nth 1: assert details != nil && arg(1) == wrap(details.SpendingHeight, 32) && arg(1) <= n.currentHeight && spendSet.details == nil
@@ -157,6 +171,7 @@ package chainntnfs
 //@
 //@ func (n *TxNotifier) UpdateConfDetails
 //@   props C14
+//@   bounds-safe
 //@   loop 0 invariant details.BlockHeight == old(details.BlockHeight) && n.currentHeight == old(n.currentHeight) &&
 //@        n.reorgSafetyLimit == old(n.reorgSafetyLimit) && details.BlockHash == old(details.BlockHash) &&
 //@        details.TxIndex == old(details.TxIndex) && details.Tx == old(details.Tx)
@@ -172,6 +187,7 @@ package chainntnfs
 //@
 //@ func (n *TxNotifier) NotifyHeight
 //@   props C14
+//@   bounds-safe
 //@   loop * havoc
 //@   site send Confirmed: assert !ntfn.dispatched && value.BlockHeight == confSet.details.BlockHeight &&
 //@        value.BlockHash == confSet.details.BlockHash && value.TxIndex == confSet.details.TxIndex && value.Tx == confSet.details.Tx
@@ -188,6 +204,7 @@ package chainntnfs
 //@ // ---- the cached hint and ends at the notifier's height; no rescan when the hint is above it
 //@ func (n *TxNotifier) RegisterConf
 //@   props C14
+//@   bounds-safe
 //@   loop * havoc
 //@   site call newConfNtfn: assert arg(numConfs) == numConfs && arg(heightHint) == heightHint
 //@   site store HistoricalConfDispatch.StartHeight: assert value == startHeight && startHeight <= n.currentHeight &&
@@ -201,11 +218,13 @@ package chainntnfs
 //@
 //@ func (n *TxNotifier) newSpendNtfn
 //@   props C14
+//@   bounds-safe
 //@   ensures result1 == nil ==> result0 != nil && result0.HeightHint == heightHint && heightHint != 0 && !result0.dispatched
 //@   ensures (heightHint == 0 || len(pkScript) == 0) ==> result1 != nil
 //@
 //@ func (n *TxNotifier) RegisterSpend
 //@   props C14
+//@   bounds-safe
 //@   loop * havoc
 //@   site call newSpendNtfn: assert arg(heightHint) == heightHint
 //@   site store HistoricalSpendDispatch.StartHeight: assert value == startHeight && startHeight <= n.currentHeight &&
